@@ -18,7 +18,9 @@
 //	I5 coins are conserved around the deposit: Δbal(depositAddr(R)) == ΔDeposit(R) and
 //	   Δbal(signer) == −fee − Σ locks + Σ refunds ; no other funded key changes
 //	I6 failed tx => no record / bytes / deposit balance changed
-//	I7 a message with a deposit limit: succeeded => Σ locks <= limit ; the menu's too-small-limit growth must fail
+//	I7 a message with a deposit limit: succeeded => Σ locks <= limit ; the menu's too-small-limit growth must fail.
+//	   limits.go quantifies this over BINDING limits: per state and message (growing 0..3 realms) the requirement is
+//	   measured on a snapshot, the limit menu is derived from it, and the message must succeed iff limit >= Σ requirement
 //	I8 with no price change in the history: Deposit(R) == Storage(R) × price   (linearity; implies "free all => refund all")
 //	I9 the persisted per-realm params counter (_realmmeta_<R>) == re-derived params bytes
 package main
@@ -51,6 +53,8 @@ const (
 	pathX  = "gno.land/r/verif/xr"
 	pathY  = "gno.land/r/verif/yr"
 	pathZ  = "gno.land/r/verif/zr"
+	pathW  = "gno.land/r/verif/wr" // limits.go: calls into yr and xr, so one message can grow three realms
+	pathV  = "gno.land/r/verif/vr" // limits.go: deployed by the limited MsgAddPackage templates (init crosses into xr/yr)
 	fee    = int64(1_000_000)
 )
 
@@ -60,6 +64,7 @@ const realmSP = `package params
 import sp "sys/params"
 
 func SetPrice(cur realm, v string) { sp.SetSysParamString("vm", "p", "storage_price", v) }
+func SetDefault(cur realm, v string) { sp.SetSysParamString("vm", "p", "default_deposit", v) }
 `
 
 const realmX = `package xr
@@ -109,6 +114,14 @@ func PriceThenGrow(cur realm, price string, k int) {
 	sysp.SetPrice(cross(cur), price)
 	for i := 0; i < k; i++ {
 		head = &Node{S: "pppppppppppppppppppppppp", Next: head}
+	}
+}
+
+// the default deposit (the limit of a message without MaxDeposit) changes INSIDE the message, before the growth
+func DefaultThenGrow(cur realm, v string, k int) {
+	sysp.SetDefault(cross(cur), v)
+	for i := 0; i < k; i++ {
+		head = &Node{S: "dddddddddddddddddddddddd", Next: head}
 	}
 }
 
@@ -181,7 +194,7 @@ func genesisTx(creator crypto.Address, path string, files map[string]string) std
 	return std.Tx{Msgs: []std.Msg{chainx.AddPkg(creator, path, files)}, Fee: std.NewFee(100_000_000, std.NewCoin("ugnot", fee)), Signatures: []std.Signature{{}}}
 }
 
-func newChain(withY, withZ bool) *chainx.Chain {
+func newChain(withY, withZ bool, withW ...bool) *chainx.Chain {
 	s := chainx.Spec{Keys: keys, Fund: 1_000_000_000_000}
 	s.GenesisTxs = []std.Tx{
 		genesisTx(A.Addr, pathSP, map[string]string{"p.gno": realmSP}),
@@ -192,6 +205,9 @@ func newChain(withY, withZ bool) *chainx.Chain {
 	}
 	if withZ {
 		s.GenesisTxs = append(s.GenesisTxs, genesisTx(A.Addr, pathZ, realmZ(0)))
+	}
+	if len(withW) > 0 && withW[0] {
+		s.GenesisTxs = append(s.GenesisTxs, genesisTx(A.Addr, pathW, map[string]string{"w.gno": realmW}))
 	}
 	c, err := chainx.New(memdb.NewMemDB(), s)
 	if err != nil {
@@ -211,6 +227,17 @@ type model struct {
 	price        int64 // reference price register (ugnot per byte)
 	priceChanged bool
 	zGen         int
+	defDep       int64 // reference register of vm:p:default_deposit: the limit of a message that carries no MaxDeposit
+}
+
+const defaultDeposit0 = int64(600_000_000) // vm params default; checked against the store at genesis
+
+func newModel(g genesis) model {
+	m := model{price: 100, defDep: defaultDeposit0}
+	if g.withZ {
+		m.zGen = 1
+	}
+	return m
 }
 
 type opDef struct {
@@ -222,7 +249,10 @@ type opDef struct {
 	// after: price after the tx if it succeeds.
 	chargePrice func(before int64) int64
 	after       func(before int64) int64
-	mustFail    bool // the statement requires this tx to fail (too-small deposit limit on real growth)
+	mustFail    bool  // the statement requires this tx to fail (too-small deposit limit on real growth)
+	mustOK      bool  // limits.go: the same message succeeded without a binding limit and every limit covers its requirement
+	afterDef    int64 // >0: default_deposit after the tx if it succeeds
+	limitPhase  bool  // only used by the deposit-limit phase (needs realm wr)
 	needsY      bool
 	deploy      bool // MsgAddPackage: only explored in replay mode (fresh chain, real commits)
 }
@@ -294,6 +324,9 @@ var menu = []opDef{
 		return []std.Msg{chainx.AddPkg(A.Addr, pathZ, realmZ(m.zGen))}, 0
 	}},
 	{name: "z.add", signer: &B, build: call(&B, pathZ, "Add", "wwwwwwwwwwwwwwwwwwwwwwww")},
+	// contexts of the deposit-limit phase (limits.go): give wr/yr/xr something to free, give wr and xr a parameter
+	{name: "w.spread(w+3,y+3,x+3)", signer: &A, limitPhase: true, build: call(&A, pathW, "Spread", "3", "3", "3")},
+	{name: "w.spreadP(w:long,x:long,y0)", signer: &A, limitPhase: true, build: call(&A, pathW, "SpreadP", longVal, longVal, "0")},
 }
 
 func opIndex(name string) int {
@@ -307,7 +340,7 @@ func opIndex(name string) int {
 
 // ---- observation ---------------------------------------------------------------------------------------------
 
-var realms = []string{pathSP, pathX, pathY, pathZ}
+var realms = []string{pathSP, pathV, pathW, pathX, pathY, pathZ} // sorted by path: the order processStorageDeposit charges them in
 
 type realmObs struct {
 	rec                chainx.RealmRecord
@@ -319,10 +352,11 @@ type realmObs struct {
 }
 
 type obs struct {
-	realm map[string]realmObs
-	bal   map[crypto.Address]std.Coins
-	price string
-	maxN  map[string]uint64 // per realm: largest object counter seen so far on this branch
+	realm  map[string]realmObs
+	bal    map[crypto.Address]std.Coins
+	price  string
+	defDep string
+	maxN   map[string]uint64 // per realm: largest object counter seen so far on this branch
 }
 
 // observe reads everything with direct key reads (an iterator on the memdb-backed stores costs O(whole DB)):
@@ -361,6 +395,7 @@ func observe(c *chainx.Chain, prev *obs) obs {
 		o.realm[p] = ro
 	}
 	o.price, _ = c.ReadKey("main", "/pv/vm:p:storage_price")
+	o.defDep, _ = c.ReadKey("main", "/pv/vm:p:default_deposit")
 	return o
 }
 
@@ -377,6 +412,7 @@ func (o obs) stateKey() string {
 		fmt.Fprintf(&b, "%v/%d/%d/%d/%d/%d|", ro.rec.Exists, ro.rec.Storage, ro.rec.Deposit, ro.objBytes, ro.parBytes, ro.depositBal)
 	}
 	b.WriteString(o.price)
+	b.WriteString(o.defDep)
 	return b.String()
 }
 
@@ -436,14 +472,19 @@ func checkStatic(m *model, o obs) *finding {
 // step delivers op on c (the caller has arranged block boundaries), observes and checks the transition against the
 // model. It returns the new observation, the updated model, whether the tx failed and the first finding (nil = ok).
 func step(c *chainx.Chain, commit bool, m model, prev obs, oi int) (obs, model, bool, *finding) {
-	op := menu[oi]
+	return stepOp(c, commit, commit, m, prev, &menu[oi])
+}
+
+// stepOp: begin/end say whether the tx gets its own block (begin=false,end=true: the caller opened the block to measure
+// the message's requirement on a snapshot first; the tx is then delivered and the block committed).
+func stepOp(c *chainx.Chain, begin, end bool, m model, prev obs, op *opDef) (obs, model, bool, *finding) {
 	msgs, limit := op.build(&m)
 	tx := c.MakeTx(keys, msgs, chainx.TxOpt{GasWanted: 100_000_000})
-	if commit {
+	if begin {
 		c.BeginBlock()
 	}
 	dr := c.DeliverTx(tx)
-	if commit {
+	if end {
 		c.EndBlockCommit()
 	}
 	nTx.Add(1)
@@ -484,8 +525,11 @@ func step(c *chainx.Chain, commit bool, m model, prev obs, oi int) (obs, model, 
 				return cur, m, true, &finding{"I6 failed tx moved coins of " + k.Name, map[string]any{"want": want, "got": got, "log": firstLine(dr.Log)}}
 			}
 		}
-		if cur.price != prev.price {
+		if cur.price != prev.price || cur.defDep != prev.defDep {
 			return cur, m, true, &finding{"I6 failed tx changed the storage price", map[string]any{}}
+		}
+		if op.mustOK {
+			return cur, m, true, &finding{"I7 message failed although every deposit limit covers the message's total requirement", map[string]any{"limit": limit, "log": firstLine(dr.Log)}}
 		}
 		return cur, m, true, nil
 	}
@@ -560,6 +604,12 @@ func step(c *chainx.Chain, commit bool, m model, prev obs, oi int) (obs, model, 
 			r.HarnessError("price op did not take effect: store has %s want %s", cur.price, want)
 		}
 	}
+	if op.afterDef > 0 {
+		m.defDep = op.afterDef
+	}
+	if want := "\"" + priceStr(m.defDep) + "\""; cur.defDep != want && !(cur.defDep == "" && m.defDep == defaultDeposit0) {
+		return cur, m, false, &finding{"harness: default_deposit register out of step with the store", map[string]any{"store": cur.defDep, "model": m.defDep}}
+	}
 	if op.deploy && strings.Contains(op.name, "private-Z") {
 		m.zGen++
 	}
@@ -585,19 +635,16 @@ func errClass(dr abci.ResponseDeliverTx) string {
 
 // ---- replay mode: fresh chain, one tx per block, state read after Commit -----------------------------------------------
 
-type genesis struct{ withY, withZ bool }
+type genesis struct{ withY, withZ, withW bool }
 
 func (g genesis) String() string {
-	return fmt.Sprintf("genesis{sp,xr%s%s}", map[bool]string{true: ",yr"}[g.withY], map[bool]string{true: ",zr"}[g.withZ])
+	return fmt.Sprintf("genesis{sp,xr%s%s%s}", map[bool]string{true: ",yr"}[g.withY], map[bool]string{true: ",zr"}[g.withZ], map[bool]string{true: ",wr"}[g.withW])
 }
 
 // replay runs history h on a fresh chain; returns the first finding (with the step index) or nil.
 func replay(g genesis, h []int) (int, *finding) {
-	c := newChain(g.withY, g.withZ)
-	m := model{price: 100}
-	if g.withZ {
-		m.zGen = 1
-	}
+	c := newChain(g.withY, g.withZ, g.withW)
+	m := newModel(g)
 	prev := observe(c, nil)
 	if f := checkStatic(&m, prev); f != nil {
 		f.key += " @ genesis"
@@ -650,6 +697,7 @@ type suspect struct {
 	g   genesis
 	h   []int
 	key string
+	lim *limSpec // deposit-limit phase: the template and variant evaluated after history h
 }
 
 func (d *dfsCtx) dfs(h []int, m model, prev obs) {
@@ -664,7 +712,7 @@ func (d *dfsCtx) dfs(h []int, m model, prev obs) {
 		cur, m2, _, f := step(d.c, false, m, prev, oi)
 		h2 := append(append([]int{}, h...), oi)
 		if f != nil {
-			suspects.Store(fmt.Sprint(d.g, h2), suspect{d.g, h2, f.key + menu[oi].name})
+			suspects.Store(fmt.Sprint(d.g, h2), suspect{d.g, h2, f.key + menu[oi].name, nil})
 		} else {
 			d.dfs(h2, m2, cur)
 		}
@@ -713,18 +761,18 @@ func main() {
 		defer pprof.StopCPUProfile()
 		time.AfterFunc(60*time.Second, func() { pprof.StopCPUProfile(); f.Close(); os.Exit(3) })
 	}
-	r.SetBudget(150*time.Second, 25*time.Minute)
+	r.SetBudget(300*time.Second, 30*time.Minute) // soft; quick needs ~60 s on a quiet 16-core box, 2-3x that when the box is loaded
 
 	if probe {
 		for i := 0; i < 4; i++ {
 			t0 := time.Now()
-			c := newChain(true, true)
+			c := newChain(true, true, true)
 			t1 := time.Now()
 			o := observe(c, nil)
 			t2 := time.Now()
 			c.BeginBlock()
 			pop := c.Push()
-			step(c, false, model{price: 100, zGen: 1}, o, opIndex("growX3"))
+			step(c, false, newModel(genesis{true, true, true}), o, opIndex("growX3"))
 			t3 := time.Now()
 			pop()
 			fmt.Println("newChain", t1.Sub(t0), "observe", t2.Sub(t1), "push+step(incl observe)", t3.Sub(t2))
@@ -747,7 +795,7 @@ func main() {
 		} {
 			fmt.Println("HISTORY", hs)
 			t0 := time.Now()
-			at, f := replay(genesis{true, true}, idx(hs...))
+			at, f := replay(genesis{true, true, true}, idx(hs...))
 			fmt.Println("   wall", time.Since(t0), at, f)
 		}
 		r.Finish("probe", false, map[string]any{"states": nStates.Load(), "transitions": nTx.Load(), "traces_validated_against_impl": nTx.Load()})
@@ -756,7 +804,7 @@ func main() {
 	var all, nonDeploy []int
 	for i := range menu {
 		all = append(all, i)
-		if !menu[i].deploy {
+		if !menu[i].deploy && !menu[i].limitPhase {
 			nonDeploy = append(nonDeploy, i)
 		}
 	}
@@ -794,8 +842,13 @@ func main() {
 		rjobs = nil
 	}
 	t00 := time.Now()
-	warm := newChain(true, true) // the first chain of a process loads and caches the stdlibs: do it once, not once per worker
+	warm := newChain(true, true, true) // the first chain of a process loads and caches the stdlibs: do it once, not once per worker
 	fmt.Printf("warm-up chain: %.1fs\n", time.Since(t00).Seconds())
+	// The soft budget is meant as an amount of work, not of wall time: the warm-up chain is a fixed piece of work (~8 s on
+	// an idle box), so its duration measures how loaded the box is; stretch the budget accordingly (at most 6x).
+	if f := time.Since(t00).Seconds() / 8; f > 1 && (r.Budget == 300*time.Second || r.Budget == 30*time.Minute) {
+		r.Budget = time.Duration(float64(r.Budget) * min(f, 6))
+	}
 	var rdone atomic.Int64
 	r.ParFor(len(rjobs), func(i int) {
 		if at, f := replay(rjobs[i].g, rjobs[i].h); f != nil {
@@ -814,6 +867,7 @@ func main() {
 		prefix []int
 		need   bool
 		depth  int
+		tmpl   int // >= 0: deposit-limit job: evaluate template tmpl after the context history prefix
 	}
 	var djobs []djob
 	type theme struct {
@@ -829,7 +883,7 @@ func main() {
 	addJob := func(ops, prefix []int, depth int) {
 		if k := fmt.Sprint(prefix, depth >= dfsDepth); !seenJob[k] {
 			seenJob[k] = true
-			djobs = append(djobs, djob{genesis{true, true}, ops, prefix, false, depth})
+			djobs = append(djobs, djob{genesis{true, true, true}, ops, prefix, false, depth, -1})
 		}
 	}
 	if r.Quick() {
@@ -855,13 +909,49 @@ func main() {
 	}
 	deployMenu := idx("deployY", "deploy/redeploy-private-Z", "z.add", "y.growForeign2", "y.hold", "y.drop", "y.growOwn2", "x.replacePub", "growX3", "shrinkX2", "price*2", "param.setStr-long")
 	for _, p := range seqs(deployMenu, 2) {
-		djobs = append(djobs, djob{genesis{}, deployMenu, p, true, 3})
+		djobs = append(djobs, djob{genesis{}, deployMenu, p, true, 3, -1})
 	}
-	pools := map[genesis]chan *chainx.Chain{{true, true}: make(chan *chainx.Chain, 64), {}: make(chan *chainx.Chain, 64)}
+	// (3) deposit-limit phase (limits.go): every template after every context, interleaved with the DFS jobs so that the
+	//     workers do not all wait for the same chains
+	templates := buildTemplates()
+	ctxMenu := idx("w.spread(w+3,y+3,x+3)", "w.spreadP(w:long,x:long,y0)", "price*2", "price/2")
+	ctxDepth := 1
+	if r.Thorough() {
+		ctxDepth = 2
+	}
+	var ljobs []djob
+	var contexts [][]int
+	for d := 0; d <= ctxDepth; d++ {
+		contexts = append(contexts, seqs(ctxMenu, d)...)
+	}
+	for _, h := range contexts {
+		for ti := range templates {
+			ljobs = append(ljobs, djob{g: genesis{true, true, true}, prefix: h, tmpl: ti})
+		}
+	}
+	if os.Getenv("C09_ONLY_LIMITS") != "" {
+		djobs, rjobs = nil, nil
+	}
+	{
+		var mixed []djob
+		a, b := 0, 0
+		for a < len(djobs) || b < len(ljobs) {
+			if b < len(ljobs) && (a >= len(djobs) || b*len(djobs) <= a*len(ljobs)) {
+				mixed = append(mixed, ljobs[b])
+				b++
+			} else {
+				mixed = append(mixed, djobs[a])
+				a++
+			}
+		}
+		djobs = mixed
+	}
+	var nVariants, nLimJobs atomic.Int64
+	pools := map[genesis]chan *chainx.Chain{{true, true, true}: make(chan *chainx.Chain, 64), {}: make(chan *chainx.Chain, 64)}
 	warm.BeginBlock()
-	pools[genesis{true, true}] <- warm
-	created := map[genesis]*atomic.Int64{{true, true}: new(atomic.Int64), {}: new(atomic.Int64)}
-	maxChains := map[genesis]int64{{true, true}: 5, {}: 2}
+	pools[genesis{true, true, true}] <- warm
+	created := map[genesis]*atomic.Int64{{true, true, true}: new(atomic.Int64), {}: new(atomic.Int64)}
+	maxChains := map[genesis]int64{{true, true, true}: 6, {}: 2}
 	var ddone atomic.Int64
 	r.ParFor(len(djobs), func(i int) {
 		j := djobs[i]
@@ -871,7 +961,7 @@ func main() {
 		case c = <-pools[j.g]:
 		default:
 			if created[j.g].Add(1) <= maxChains[j.g] {
-				c = newChain(j.g.withY, j.g.withZ)
+				c = newChain(j.g.withY, j.g.withZ, j.g.withW)
 				c.BeginBlock()
 			} else {
 				c = <-pools[j.g]
@@ -880,10 +970,7 @@ func main() {
 		defer func() { pools[j.g] <- c }()
 		pop := c.Push()
 		defer pop()
-		m := model{price: 100}
-		if j.g.withZ {
-			m.zGen = 1
-		}
+		m := newModel(j.g)
 		prev := observe(c, nil)
 		h := []int{}
 		for _, oi := range j.prefix {
@@ -891,10 +978,21 @@ func main() {
 			prev, m, _, f = step(c, false, m, prev, oi)
 			h = append(h, oi)
 			if f != nil {
-				suspects.Store(fmt.Sprint(j.g, h), suspect{j.g, append([]int{}, h...), f.key + menu[oi].name})
+				suspects.Store(fmt.Sprint(j.g, h), suspect{j.g, append([]int{}, h...), f.key + menu[oi].name, nil})
 				ddone.Add(1)
 				return
 			}
+		}
+		if j.tmpl >= 0 {
+			nv := evalTemplate(c, m, prev, j.tmpl, &templates[j.tmpl], func(ls limSpec, f *finding) {
+				ls2 := ls
+				suspects.Store(fmt.Sprint(j.g, h, ls.ti, ls.v), suspect{j.g, append([]int{}, h...), f.key + templates[ls.ti].name + ls.label, &ls2})
+			})
+			nVariants.Add(int64(nv))
+			nLimJobs.Add(1)
+			r.Distinct("limits" + fmt.Sprint(j.prefix, j.tmpl))
+			ddone.Add(1)
+			return
 		}
 		(&dfsCtx{c: c, g: j.g, ops: j.ops, depth: j.depth, needDeploy: j.need}).dfs(h, m, prev)
 		r.Distinct("dfs" + fmt.Sprint(j.g, j.prefix, j.depth, len(j.ops)))
@@ -908,14 +1006,36 @@ func main() {
 		if len(sus[i].h) != len(sus[j].h) {
 			return len(sus[i].h) < len(sus[j].h)
 		}
-		return fmt.Sprint(sus[i].h) < fmt.Sprint(sus[j].h)
+		if a, b := fmt.Sprint(sus[i].h), fmt.Sprint(sus[j].h); a != b {
+			return a < b
+		}
+		return sus[i].key < sus[j].key
 	})
 	seenKey := map[string]bool{}
+	nRep := map[bool]int{}
 	for _, s := range sus {
-		if seenKey[s.key] || len(seenKey) >= 12 { // the shortest history of each distinct finding
+		// the shortest history of each distinct finding; at most 12 replays per phase (history DFS / deposit-limit phase)
+		if seenKey[s.key] || nRep[s.lim != nil] >= 12 {
 			continue
 		}
 		seenKey[s.key] = true
+		nRep[s.lim != nil]++
+		if s.lim != nil {
+			t := &templates[s.lim.ti]
+			what := hname(s.h) + " ; " + t.name + " limit=" + s.lim.label
+			at, f := replayLimited(s.g, s.h, templates, *s.lim)
+			if f == nil {
+				r.HarnessError("finding of the deposit-limit phase (rollback mode) not reproduced with real commits: %s", what)
+			}
+			if at < len(s.h) {
+				report(s.g, s.h, at, f, "deposit-limit phase, confirmed by replay with real commits")
+				continue
+			}
+			f.detail["history"] = s.g.String() + ": " + what + " " + fmt.Sprint(s.lim.v.lims)
+			f.detail["found_by"] = "deposit-limit phase (requirement measured on a snapshot), confirmed by replay with real commits"
+			r.Violation(f.key+" @ "+t.name+" limit="+s.lim.label, f.detail)
+			continue
+		}
 		at, f := replay(s.g, s.h)
 		if f == nil {
 			r.HarnessError("finding of DFS (rollback) mode not reproduced with real commits: %s", hname(s.h))
@@ -937,6 +1057,7 @@ func main() {
 	if r.Thorough() {
 		scope = "every history of <=3 txs over the %d non-deploy ops and of <=4 txs inside each of 3 themed sub-menus (10/13/11 ops)"
 	}
-	r.Finish(fmt.Sprintf("DFS (open block, snapshot/rollback) from the genesis with 4 realms: "+scope+"; from the genesis with 2 realms: every history of <=3 txs over a %d-op deploy menu containing a deployment; replay (fresh chain, commit per tx): %d histories; invariants I1-I9 re-derived from raw store bytes after every tx; distinct = completed replay histories + DFS subtrees", len(nonDeploy), len(deployMenu), len(rjobs)),
-		exh, map[string]any{"states": nStates.Load(), "transitions": nTx.Load(), "traces_validated_against_impl": nTx.Load(), "replay_histories": len(rjobs), "dfs_subtrees": len(djobs), "menu": len(menu)})
+	r.Finish(fmt.Sprintf("DFS (open block, snapshot/rollback) from the genesis with 5 realms: "+scope+"; from the genesis with 2 realms: every history of <=3 txs over a %d-op deploy menu containing a deployment; replay (fresh chain, commit per tx): %d histories; deposit-limit phase: %d message templates (one call/run/deployment or a 2-message tx growing/shrinking 0..3 realms) after each of %d contexts (histories of <=%d txs over 4 ops), requirement measured per realm on a snapshot, every limit of the menu derived from it (unset/1/min,max,prefix sums,total -1/+0/+1/2x, through MaxDeposit and through default_deposit) run from the same snapshot: %d limited deliveries; invariants I1-I9 re-derived from raw store bytes after every tx; distinct = completed replay histories + DFS subtrees + (context,template) pairs", len(nonDeploy), len(deployMenu), len(rjobs), len(templates), len(contexts), ctxDepth, nVariants.Load()),
+		exh, map[string]any{"states": nStates.Load(), "transitions": nTx.Load(), "traces_validated_against_impl": nTx.Load(), "replay_histories": len(rjobs), "dfs_subtrees": len(djobs) - len(ljobs), "menu": len(menu),
+			"limit_templates": len(templates), "limit_contexts": len(contexts), "limit_jobs_done": nLimJobs.Load(), "limit_variants": nVariants.Load()})
 }
